@@ -24,7 +24,12 @@ fn caller<W: World>(shared_seed: u64, t: usize, focus: [usize; 2]) {
     let mut rng = Rng::from_seed(shared_seed ^ (t as u64 + 1).wrapping_mul(GOLDEN));
     let mut obs = Obs::for_world::<W>();
     let mut ops: Vec<W::Op>;
-    if rng.chance(1, 4) {
+    let shaped = if shared_seed & 1 == 1 { W::conc_history(&mut rng, shared_seed >> 32) } else { None };
+    if let Some(h) = shaped {
+        // all callers of this iteration are in the same crate functions with the same sizes, each
+        // with its own values, every call made two to four times
+        ops = h;
+    } else if rng.chance(1, 4) {
         // a stretch of a directed scenario
         let d = W::directed();
         let (_, sc) = &d[rng.usize_below(d.len())];
